@@ -42,8 +42,16 @@ package common
 //@       (tx.Outputs[0].Type == OutputTypeNodePledge ==> result == TransactionTypeNodePledge) &&
 //@       (tx.Outputs[0].Type == OutputTypeNodeAccept ==> result == TransactionTypeNodeAccept) &&
 //@       (tx.Outputs[0].Type == OutputTypeNodeRemove ==> result == TransactionTypeNodeRemove)
+//@   -- C17 (zz_contracts_c17_verif.go): the classification writeTotalInAsset relies on, by the first input / first output
+//@   ensures [c17-mint-first] len(tx.Inputs) >= 1 && tx.Inputs[0].Mint != nil ==> result == TransactionTypeMint
+//@   ensures [c17-deposit-first] len(tx.Inputs) >= 1 && tx.Inputs[0].Mint == nil && tx.Inputs[0].Deposit != nil ==> result == TransactionTypeDeposit
+//@   ensures [c17-genesis-first] len(tx.Inputs) >= 1 && tx.Inputs[0].Mint == nil && tx.Inputs[0].Deposit == nil && !isnil(tx.Inputs[0].Genesis) ==> result == TransactionTypeUnknown
+//@   ensures [c17-unknown] result == TransactionTypeUnknown ==> PlainInputs(&tx.Transaction) || (exists k int :: 0 <= k && k < len(tx.Inputs) && !isnil(tx.Inputs[k].Genesis))
+//@   ensures [c17-submit-first] PlainInputs(&tx.Transaction) && len(tx.Outputs) >= 1 && tx.Outputs[0].Type == OutputTypeWithdrawalSubmit ==> result == TransactionTypeWithdrawalSubmit
+//@   ensures [c17-submit-only] result == TransactionTypeWithdrawalSubmit ==> exists j int :: 0 <= j && j < len(tx.Outputs) && tx.Outputs[j].Type == OutputTypeWithdrawalSubmit
 //@   loop 0 invariant forall j int :: 0 <= j && j <= rangeindex ==> PlainInput(tx.Inputs[j])
 //@   loop 1 invariant PlainInputs(&tx.Transaction)
+//@   loop 1 invariant [c17] forall j int :: 0 <= j && j <= rangeindex ==> tx.Outputs[j].Type != OutputTypeWithdrawalSubmit
 //@   loop 1 invariant forall j int :: 0 <= j && j <= rangeindex ==> !NodeKind(tx.Outputs[j].Type)
 
 //@ spec NodeKind(t mathint) bool = t == OutputTypeNodePledge || t == OutputTypeNodeAccept || t == OutputTypeNodeRemove
@@ -59,6 +67,7 @@ package common
 //@   modifies nothing
 //@   ensures val(v) >= 0
 //@   ensures x == ExtraStoragePriceStep ==> val(v) == 10000
+//@   ensures [c17-decode] val(v) == AmountOfVal(kvstr(x)) -- C17: deterministic in the text (codec pair with Integer.String, zz_contracts_c17_verif.go)
 
 //@ assume func NewInteger
 //@   modifies nothing
@@ -68,6 +77,7 @@ package common
 //@ func (x Integer) String
 //@   property C05
 //@   modifies nothing
+//@   assumes [c17-encode] val(x) >= 0 ==> AmountOfVal(kvstr(result)) == val(x) -- C17: ASSUMED codec pair with NewIntegerFromString (zz_contracts_c17_verif.go)
 
 // ───────────── validation.go ─────────────
 
@@ -218,6 +228,7 @@ package common
 //@   property C05
 //@   modifies nothing
 //@   ensures val(result) >= 0
+//@   assumes [c17-table] val(result) == CapacityOf(id) -- C17: a deterministic function of id (switch over constants); ASSUMED, see zz_contracts_c17_verif.go
 
 //@ func (a *Asset) Verify
 //@   property C05
